@@ -129,6 +129,10 @@ Definition collision (br1 br2 : list bytes) (p1 p2 : Z) (w1 w2 : bytes) : option
 Definition header_root_raw (raw : bytes) : bytes := firstn 32 (skipn 36 raw).
 Definition header_merkle_root (raw : bytes) : bytes := hexlify (rev (header_root_raw raw)).
 
+(* `0 <= merkle['pos'] < (1 << len(merkle['merkle']))` *)
+Definition pos_fits {A} (brs : list A) (pos : Z) : bool :=
+  ((0 <=? pos) && (pos <? 2 ^ Z.of_nat (length brs)))%Z.
+
 (* ---------- Ledger.maybe_verify_transaction ---------- *)
 (* the merkle dict: m_merkle = None <-> no 'merkle' key; m_pos = None <-> no 'pos' key *)
 Record merkle_resp := { m_merkle : option (list bytes); m_pos : option Z }.
@@ -150,6 +154,11 @@ Definition maybe_verify (headers : list bytes) (st : tx_state) (raw_tx : bytes) 
         match m_pos m with
         | None => (st1, RaiseKeyError, fetched)
         | Some pos =>
+            if negb (pos_fits brs pos) then
+              (* fix 3419b3f: the branch cannot address this position -- not a proof; the position is NOT
+                 recorded and the flag is forced to False *)
+              ({| t_height := remote_height; t_position := t_position st; t_verified := false |}, RetTx, fetched)
+            else
             match get_root_of_merkle_tree brs pos (dsha raw_tx) with
             | None => (st1, RaiseHexError, fetched)
             | Some root =>
